@@ -345,7 +345,7 @@ func visibleKill(c *harness.Ctx) {
 		var err error
 		shm, err = os.MkdirTemp("/dev/shm", "verif-c08-")
 		if err != nil {
-			c.Inconclusive("no second filesystem: %v", err)
+			c.Skip("no second filesystem: %v", err)
 			return
 		}
 		defer os.RemoveAll(shm)
